@@ -90,7 +90,7 @@ func (c c19Conf) String() string {
 
 type c19Env struct {
 	dir, files, caPEM, crlFile, missing string
-	u, u2                              string
+	u, u2                               string
 }
 
 func (c c19Conf) val(d int) string { return strings.TrimPrefix(c19Dims[d].Values[c[d]], "!") }
@@ -301,20 +301,20 @@ func (c c19Conf) renderJSON(e *c19Env) []byte {
 
 // c19Effective is the effective configuration after loading (Unmarshal + Provision).
 type c19Effective struct {
-	Err          string
-	Mode         config.RevocationCheckMode
-	Storage      config.StorageType
-	Interval     time.Duration
-	SigMode      config.SignatureValidationMode
-	URLs, Files  []string
-	TrustedN     int
-	Fetch        config.CRLFetchMode
-	Strict       bool
-	Cache        time.Duration
-	AIAStrict    bool
-	ResponderN   int
-	WorkDir      string
-	HasCRL       bool
+	Err         string
+	Mode        config.RevocationCheckMode
+	Storage     config.StorageType
+	Interval    time.Duration
+	SigMode     config.SignatureValidationMode
+	URLs, Files []string
+	TrustedN    int
+	Fetch       config.CRLFetchMode
+	Strict      bool
+	Cache       time.Duration
+	AIAStrict   bool
+	ResponderN  int
+	WorkDir     string
+	HasCRL      bool
 }
 
 func (e c19Effective) String() string {
